@@ -501,3 +501,82 @@ def c13_enum_object(which: int, lit: bool) -> bool:
         if exph is None and sorted(outs) != sorted(o_hooks * 2 + s_hooks * 3):
             return verdict(False)
     return verdict(True)
+
+
+# ---- string-valued stages: what an input hook RETURNS is what the next stage sees (the Tag hooks above rewrite ints only, so a hook on an
+# ---- enum value / enum type / String position whose return value is dropped was invisible) -------------------------------------------------------
+class Rw:
+    """rewrites a string value: v -> v + suffix (non-commuting, so order, omission and dropped return values all show)"""
+    async def on_post_input_coercion(self, directive_args, next_directive, parent_node, value, ctx):
+        v = await next_directive(parent_node, value, ctx)
+        LOG.append(("rw", directive_args["s"], v))
+        return v + directive_args["s"] if isinstance(v, str) else v
+
+
+_RWN = "c13_rw"
+Directive("rw", schema_name=_RWN)(Rw())
+
+
+@Resolver("Query.saw", schema_name=_RWN)
+async def _rsaw(parent, args, ctx, info):
+    LOG.append(("resolver-saw", args))
+    return repr(sorted(args.items(), key=lambda kv: kv[0]))
+
+
+RW_ENG = build("""
+directive @rw(s: String!) on ENUM | ENUM_VALUE | INPUT_FIELD_DEFINITION | ARGUMENT_DEFINITION | SCALAR
+enum Color @rw(s: "+E") { RED @rw(s: "+v1") @rw(s: "+v2") GREEN BLUE @rw(s: "+b") }
+enum Plain { P1 @rw(s: "+p") P2 }
+input In { c: Color @rw(s: "+f") cs: [Color] p: Plain }
+type Query { saw(c: Color, cs: [Color], p: Plain, i: In, d: Color = RED): String }
+""", _RWN, query_cache_decorator=None)
+
+# (argument text with literals, variable definitions, the same argument text with variables, variables)
+RW_CASES = [
+    ("c: RED", "$a: Color", "c: $a", {"a": "RED"}),
+    ("c: GREEN", "$a: Color", "c: $a", {"a": "GREEN"}),
+    ("c: BLUE", "$a: Color", "c: $a", {"a": "BLUE"}),
+    ("p: P1", "$a: Plain", "p: $a", {"a": "P1"}),
+    ("cs: [RED, GREEN, BLUE]", "$a: [Color]", "cs: $a", {"a": ["RED", "GREEN", "BLUE"]}),
+    ("cs: [RED, GREEN]", "$a: Color", "cs: [$a, GREEN]", {"a": "RED"}),
+    ("cs: RED", "$a: [Color]", "cs: $a", {"a": "RED"}),
+    ("i: {c: RED, p: P1}", "$a: In", "i: $a", {"a": {"c": "RED", "p": "P1"}}),
+    ("i: {c: BLUE, cs: [RED]}", "$a: Color, $b: Color", "i: {c: $a, cs: [$b]}", {"a": "BLUE", "b": "RED"}),
+    ("c: BLUE, p: P1", "$a: Color = BLUE, $b: Plain = P1", "c: $a, p: $b", {}),
+]
+# what the resolver must see, written by hand from the SDL above. Rw rewrites AFTER calling the next stage, so of two directives on one element the
+# first declared (outermost) appends last. The property does not order enum-value against enum-type hooks ("enum-value/type"): both orders are
+# accepted, consistently for the whole request. The input field's hook comes after both. (`d` has a schema default, coerced through the same hooks.)
+def rw_expect(value_first):
+    def e(name, vs):
+        return name + vs + "+E" if value_first else name + "+E" + vs
+    _R, _G, _B, _P1 = e("RED", "+v2+v1"), e("GREEN", ""), e("BLUE", "+b"), "P1+p"
+    return [
+        {"c": _R, "d": _R}, {"c": _G, "d": _R}, {"c": _B, "d": _R}, {"p": _P1, "d": _R},
+        {"cs": [_R, _G, _B], "d": _R}, {"cs": [_R, _G], "d": _R}, {"cs": [_R], "d": _R},
+        {"i": {"c": _R + "+f", "p": _P1}, "d": _R}, {"i": {"c": _B + "+f", "cs": [_R]}, "d": _R},
+        {"c": _B, "p": _P1, "d": _R},
+    ]
+
+
+RW_EXPECT = [rw_expect(True), rw_expect(False)]
+
+
+@obligation(tier="quick", timeout=120, samples=[{"case": 0, "lit": True}, {"case": 7, "lit": False}, {"case": 9, "lit": False}],
+            selectors=["case: which of %d argument shapes" % len(RW_CASES), "lit: literals or variables"], bounds="1 schema with string-rewriting input hooks on enum values (0, 1, 2 per value), an enum type, an input field x 10 argument shapes x literal/variable",
+            note="what an input hook returns is what the resolver sees, identically for a literal and a variable (hand-written expectations)")
+def c13_rewriting_input_hooks(case: int, lit: bool) -> bool:
+    """
+    post: _
+    """
+    case = pick(case, len(RW_CASES)); lit = pickb(lit)
+    larg, vdefs, varg, variables = RW_CASES[case]
+    q = "{ saw(%s) }" % larg if lit else "query Q(%s) { saw(%s) }" % (vdefs, varg)
+    del LOG[:]
+    ok, r = safe(lambda: env.run(RW_ENG.execute(q, variables={} if lit else variables)))
+    log = list(LOG)
+    observe(q, r, log)
+    if not ok or r.get("errors"):
+        return verdict(False)
+    seen = [e[1] for e in log if e[0] == "resolver-saw"]
+    return verdict(len(seen) == 1 and (seen[0] == RW_EXPECT[0][case] or seen[0] == RW_EXPECT[1][case]))
